@@ -468,6 +468,14 @@ def _truthiness_use(expr: ast.AST, is_raw) -> Optional[str]:
             test = test.operand
         if is_raw(test) and (is_raw(expr.body) or is_raw(expr.orelse)):
             return f"`{short(expr)}` tests the value for truth: a cost of 0 takes the other branch"
+        if isinstance(test, ast.Compare) and len(test.ops) == 1 and isinstance(test.ops[0], (ast.Eq, ast.NotEq)):
+            if (is_raw(test.left) or is_raw(test.comparators[0])) and (is_raw(expr.body) != is_raw(expr.orelse)):
+                other = expr.orelse if is_raw(expr.body) else expr.body
+                return (
+                    f"`{short(expr)}` stores `{short(other)}` instead of the value read whenever the comparison "
+                    "holds: an equal object of another type does not serialise the same way (infinity.inf is not a "
+                    "JSON number, float('inf') is)"
+                )
         if isinstance(test, ast.Compare) and len(test.ops) == 1 and isinstance(test.ops[0], (ast.Is, ast.IsNot)):
             if is_raw(test.left) and isinstance(test.comparators[0], ast.Constant) and test.comparators[0].value is None:
                 if is_raw(expr.body) or is_raw(expr.orelse):
